@@ -35,4 +35,10 @@ CHECKS = {
                  "connected and disconnected meshes with random roots, exclusion sets and avoid_boundary; reach set, edge count, admissibility of tree edges, "
                  "parent/children consistency, traversal orders, BFS depth == reference hop distance, MST weight == reference Kruskal, one tree per component.",
          "design_ref": "DESIGN.md section 6 C10", "note": _NOTE, "technique": "runtime monitoring: reference-model differential oracle + structural invariants of the returned trees"},
+ "C13": {"text": "History monitor over editing blocks: generated sequences of 1-3 subdivision operations are run inside one block on zoo surfaces, "
+                 "tetrahedral meshes and polylines (connectivity pre-queried or not); the result is judged by the reference analyser (validity, Euler "
+                 "characteristic, border loops, components, area/volume), documented count formulas, original vertices bit-exact, every new vertex at a "
+                 "centre of the mesh it refines (prefix re-runs), the full connectivity script on the result, and the input object must be unchanged or "
+                 "equal to the result with connectivity answers that describe its containers.",
+         "design_ref": "DESIGN.md section 6 C13", "note": _NOTE, "technique": "runtime monitoring: operation-history monitor + reference analyser + connectivity differential oracle"},
 }
